@@ -805,11 +805,11 @@ fn execute_all(cases: Vec<Planned>, bins: Arc<Binaries>, jobs: usize, keep_every
                 break;
             }
             let p = &cases[i];
-            let mut r = run_in_slot(&p.case, &bins, 20, slot);
+            let mut r = run_in_slot(&p.case, &bins, 30, slot);
             if let Ok((o, _)) = &r {
                 if o.timed_out {
                     // a timeout is never a verdict by itself: once more with a longer limit
-                    r = run_in_slot(&p.case, &bins, 60, slot);
+                    r = run_in_slot(&p.case, &bins, 120, slot);
                 }
             }
             match r {
